@@ -162,7 +162,10 @@ def run_cli_case(case):
         if p.returncode != 0:
             last = [l for l in p.stderr.strip().split('\n') if l.strip()][-1:] or ['']
             exc = last[0].split(':')[0].strip() if ':' in last[0] else 'exit'
-            acc.violate('cli-failed:' + (exc if exc.isidentifier() else 'exit') + (':multi-strategy' if mode == 'multi' else ''), f'demux.py exited {p.returncode}: {p.stderr[-400:]} ({cfg})', wit)
+            import re as _re
+            frames = _re.findall(r'File "[^"]*singlecellmultiomics/([^"]+)", line \d+, in (\S+)', p.stderr)
+            where = (os.path.basename(frames[-1][0]) + ':' + frames[-1][1]) if frames else 'unknown'
+            acc.violate('cli-failed:' + (exc if exc.isidentifier() else 'exit') + ':' + where, f'demux.py exited {p.returncode}: {p.stderr[-400:]} ({cfg})', wit)
             return acc
         prefix = os.path.join(out, lib)
         import re
